@@ -286,8 +286,17 @@ def run(ck):
                   f"{ci.module.path}:{ci.node.lineno}")
     amt = prog.func('addons:AddonMainTask.stop_async')
     ga = ck.cfg(amt.fid, 'M1')
-    cn = [n for n in nodes_calling(ga, 'cancel') if recv(node_calls(n, 'cancel')[0]) == 'self._mtask']
-    aw = nodes_where(ga, lambda n: any(isinstance(x, ast.Await) and norm(x.value) == 'self._mtask'
+    rda = ck.rdefs(amt.fid, 'M1')
+
+    def _is_mtask(node_, text):
+        if text == 'self._mtask':
+            return True
+        if text.isidentifier():
+            vals_ = rda.value_exprs(node_, text)
+            return bool(vals_) and all(not isinstance(v_, str) and norm(v_) == 'self._mtask' for v_ in vals_)
+        return False
+    cn = [n for n in nodes_calling(ga, 'cancel') if _is_mtask(n, recv(node_calls(n, 'cancel')[0]))]
+    aw = nodes_where(ga, lambda n: any(isinstance(x, ast.Await) and _is_mtask(n, norm(x.value))
                                        for x in walk_shallow(n.ast)))
     ok = len(cn) == 1 and len(aw) == 1 and ga.dominates(cn[0], aw[0])
     hs = [n for n in ga.nodes if n.kind == 'handler' and ga.pred[n.id]]
@@ -609,10 +618,20 @@ def _own_attr(ck, R, fi, x, attr, stopper, cancelled):
     sf = ck.prog.resolve_method(cls, stopper) if cls else None
     why = f"the task is not stored in self.{attr}"
     if ok:
-        ok = sf is not None and any(isinstance(a, ast.Await) and norm(a.value) == f'self.{attr}'
+        # the attribute itself, or a local of the stopper that is only ever bound to it
+        aliases = {f'self.{attr}'}
+        if sf is not None:
+            for st_ in own_nodes(sf.node):
+                if isinstance(st_, ast.Assign) and len(st_.targets) == 1 and isinstance(st_.targets[0], ast.Name) \
+                        and norm(st_.value) == f'self.{attr}':
+                    nm_ = st_.targets[0].id
+                    if sum(1 for z in own_nodes(sf.node) if isinstance(z, ast.Name) and z.id == nm_
+                           and isinstance(z.ctx, ast.Store)) == 1:
+                        aliases.add(nm_)
+        ok = sf is not None and any(isinstance(a, ast.Await) and norm(a.value) in aliases
                                     for a in own_nodes(sf.node))
         if cancelled:
-            ok = ok and any(isinstance(c, ast.Call) and call_name(c) == 'cancel' and recv(c) == f'self.{attr}'
+            ok = ok and any(isinstance(c, ast.Call) and call_name(c) == 'cancel' and recv(c) in aliases
                             for c in own_nodes(sf.node))
         why = f"{stopper} of {cls.name} does not {'cancel and ' if cancelled else ''}await self.{attr}"
     ck.ob(R, f"{fi.fid} :: {norm1(x)}", ok,
